@@ -116,6 +116,14 @@ def main():
             return [[("g", "int", g1), ("x", narrow, a)], [("g", "int", g2), ("x", narrow, b)], [("g", "int", g3), ("x", narrow, a)]]
         return [[("g", "int", g1), ("x", k, a)], [("g", "int", g2), ("x", k, b)], [("g", "int", g3), ("x", k, a)], [("g", "int", ties_g), ("x", k, ties_v)], [("g", "int", big_g), ("x", k, big_v)]] + ([[("g", "int", off_g), ("x", k, off_v)]] if off_v else [])
 
+    helper_objects = {}
+    def make(h, ha, hk):
+        # helper objects are reused across calls, frames and dtypes in this process (users keep e.g. a dict of summaries around)
+        key = (h, repr(ha), repr(sorted(hk.items())))
+        if key not in helper_objects:
+            helper_objects[key] = getattr(di, h)("x", *ha, **hk)
+        return helper_objects[key]
+
     def run(helper, kw, spec, numba_on):
         di.USE_NUMBA = numba_on
         df = gen.build_frame(spec)
@@ -133,7 +141,7 @@ def main():
                     hk = dict(hkw); ha = []
                     if h == "nth": ha.append(hk.pop("index"))
                     if h == "quantile": ha.append(hk.pop("q"))
-                    fs[f"y{j}"] = getattr(di, h)("x", *ha, **hk)
+                    fs[f"y{j}"] = make(h, ha, hk)
                 res = df.group_by("g").aggregate(**fs)
                 cells, kinds, dts = [], [], []
                 for name in fs:
@@ -141,7 +149,7 @@ def main():
                     cells += canon.col_cells(y); kinds.append(canon.dtype_kind(y)); dts.append(str(np.asarray(y).dtype))
                 val = {"dtype": ",".join(dts), "kind": ",".join(kinds), "cells": cells}
             else:
-                res = df.group_by("g").aggregate(y=f("x", *args, **kws))
+                res = df.group_by("g").aggregate(y=make(helper, args, kws))
                 y = dict.__getitem__(res, "y")
                 val = {"dtype": str(np.asarray(y).dtype), "kind": canon.dtype_kind(y), "cells": canon.col_cells(y)}
         except Exception as e:
